@@ -96,6 +96,13 @@ func (share *Share) Verify(ec elliptic.Curve, threshold int, vs Vs) bool {
 	if share.Threshold != threshold || vs == nil || len(vs) != threshold+1 {
 		return false
 	}
+	// an id or a share that is 0 modulo the group order would need the identity point, which
+	// ScalarMult / ScalarBaseMult cannot represent (they panic); such a share is never valid
+	if share.ID == nil || share.Share == nil ||
+		new(big.Int).Mod(share.ID, ec.Params().N).Sign() == 0 ||
+		new(big.Int).Mod(share.Share, ec.Params().N).Sign() == 0 {
+		return false
+	}
 	var err error
 	modQ := common.ModInt(ec.Params().N)
 	v, t := vs[0], one // YRO : we need to have our accumulator outside of the loop
